@@ -1526,7 +1526,7 @@ def _format_typedef_body(td, indent, offset):
             parts.append([])
         parts[-1].append(term)
 
-    if parts[0] == []:
+    if parts[0] == [] and len(parts) > 1:
         parts = [parts[1]]
     assert len(parts) <= 2
     if len(parts) == 1:
